@@ -762,23 +762,25 @@ impl Xot {
     /// assert_eq!(siblings, vec![g, e, d, c, b, a]);
     /// ```
     pub fn preceding(&self, node: Node) -> impl Iterator<Item = Node> + '_ {
-        // start with an empty iterator
-        let mut joined_iterator: Box<dyn Iterator<Item = Node>> = Box::new(std::iter::empty());
+        // The nodes are collected at once. Chaining one boxed iterator per
+        // preceding sibling nests them as deep as there are such siblings, and
+        // both `next` and the destructor recurse through that nesting: an
+        // element with some ten thousand children overflowed the stack.
+        let mut preceding = Vec::new();
         let mut current_parent = Some(node);
         while let Some(parent) = current_parent {
             let mut current_sibling = parent;
             while let Some(current) = self.previous_sibling(current_sibling) {
-                // add descendants of previous sibling, reversed
-                // this unfortunately requires an extra allocation, as descendants
-                // is not a double iterator.
-                let descendants = Box::new(self.descendants(current).collect::<Vec<_>>());
-                let reverse_descendants = descendants.into_iter().rev();
-                joined_iterator = Box::new(joined_iterator.chain(Box::new(reverse_descendants)));
+                // add descendants of previous sibling, reversed (descendants
+                // is not a double ended iterator)
+                let start = preceding.len();
+                preceding.extend(self.descendants(current));
+                preceding[start..].reverse();
                 current_sibling = current;
             }
             current_parent = self.parent(parent);
         }
-        joined_iterator
+        preceding.into_iter()
     }
 
     /// Traverse over node edges.
